@@ -303,8 +303,8 @@ End Assoc.
 (* ------------------------------------------------------------------ cache state *)
 (* nodeInfo (pod_assign_cache.go:101).  podUsages / prodPods / nodeUsage / aggUsages /
    reportInterval are functions of the stored metric (they are written only together with it
-   and read only while it is present); updateTime is kept separately because a report without
-   Status.UpdateTime leaves the previous value in place. *)
+   and read only while it is present); updateTime is kept as a field, as in the code (it is
+   [fresh_ut] of the stored metric, an invariant proved in Proofs_Drift). *)
 Record ninfo := mkN {
   n_pods : list (Z * pinfo);          (* podInfos, by uid *)
   n_metric : option metric;
@@ -386,10 +386,14 @@ Definition on_update (cfg : config) (now : Z) (old_node : Z) (p : pod) (c : cach
     else c1
   end.
 
+(* the update time a report sets: Status.UpdateTime, or the zero time when it has none
+   (since fix 56625eb the previous report's time is not kept) *)
+Definition fresh_ut (m : metric) : Z := match m_ut m with Some t => t | None => zero_time end.
+
 (* nodeInfo.AddOrUpdateNodeMetric (:520) *)
 Definition set_metric (cfg : config) (node : Z) (m : metric) (c : cache) : cache :=
   let n := get_node c node in
-  let ut := match m_ut m with Some t => t | None => n_ut n end in
+  let ut := fresh_ut m in
   aset node (mkN (n_pods n) (Some m) ut (rebuild cfg m ut (n_pods n))) c.
 
 (* nodeInfo.DeleteNodeMetric (:604) *)
@@ -565,7 +569,6 @@ Definition op_result (cfg : config) (c : cache) (o : op) : Z :=
 (* a new podAssignCache fed node n's current metric report and its current pods: the pods are
    re-assigned (clock set to their recorded timestamp), then the sums are whatever the code
    computes for them *)
-Definition fresh_ut (m : metric) : Z := match m_ut m with Some t => t | None => zero_time end.
 Definition refeed (cfg : config) (pods : list (Z * pinfo)) : list (Z * pinfo) :=
   map (fun up => (fst up, mk_pinfo cfg (pi_ts (snd up)) (pi_pod (snd up)))) pods.
 Definition fresh_sums (cfg : config) (n : ninfo) : sums :=
